@@ -102,12 +102,17 @@ def render(hist):
     return ' ; '.join('%s(%s)' % (a[0], ', '.join(str(x) for x in a[1:] if x != 0)) for a in hist)
 
 
+def judge_sim(payload, params):
+    """payload: histories printed by a TLC simulation run, as (hist, refs)."""
+    return judge([{'hist': h, 'heap': [{'ref': r} for r in refs]} for h, refs in payload], dict(params, min_len=0))
+
+
 def judge(payload, params):
     stats = collections.Counter()
     failures, samples = [], []
     primary = params.get('hashseed', 0) == 0
     for raw in payload:
-        st = parse_state(raw)
+        st = raw if isinstance(raw, dict) else parse_state(raw)
         hist = st['hist']
         if len(hist) < params['min_len']:
             continue
